@@ -56,6 +56,12 @@ type Settings struct {
 	// carried (bit id-1 for parameter id), so that the receiver can leave the
 	// ones it did not carry as they were.
 	seen uint8
+
+	// tableSizeLow is the smallest SETTINGS_HEADER_TABLE_SIZE the frame carried.
+	// The parameters are processed in order, so a frame that repeats the id has
+	// taken the peer's decoder through every one of the values, and the
+	// encoder has to tell it about the lowest (RFC 7541 4.2).
+	tableSizeLow uint32
 }
 
 func (st *Settings) Type() FrameType {
@@ -79,6 +85,7 @@ func (st *Settings) Reset() {
 	st.maxStreamsSet = false
 	st.windowSizeSet = false
 	st.seen = 0
+	st.tableSizeLow = 0
 }
 
 // CopyTo copies st fields to st2.
@@ -97,6 +104,7 @@ func (st *Settings) CopyTo(st2 *Settings) {
 	st2.maxStreamsSet = st.maxStreamsSet
 	st2.windowSizeSet = st.windowSizeSet
 	st2.seen = st.seen
+	st2.tableSizeLow = st.tableSizeLow
 }
 
 // applyTo updates st2 with the parameters of a received SETTINGS frame. A
@@ -110,6 +118,7 @@ func (st *Settings) applyTo(st2 *Settings) {
 
 	if st.seen&(1<<(HeaderTableSize-1)) != 0 {
 		st2.tableSize = st.tableSize
+		st2.tableSizeLow = st.tableSizeLow
 	}
 	if st.seen&(1<<(EnablePush-1)) != 0 {
 		st2.enablePush = st.enablePush
@@ -239,12 +248,11 @@ func (st *Settings) Read(d []byte) error {
 		key = uint16(b[0])<<8 | uint16(b[1])
 		value = uint32(b[2])<<24 | uint32(b[3])<<16 | uint32(b[4])<<8 | uint32(b[5])
 
-		if key >= HeaderTableSize && key <= MaxHeaderListSize {
-			st.seen |= 1 << (key - 1)
-		}
-
 		switch key {
 		case HeaderTableSize:
+			if st.seen&(1<<(HeaderTableSize-1)) == 0 || value < st.tableSizeLow {
+				st.tableSizeLow = value
+			}
 			st.tableSize = value
 		case EnablePush:
 			if value != 0 && value != 1 {
@@ -266,6 +274,10 @@ func (st *Settings) Read(d []byte) error {
 			st.frameSize = value
 		case MaxHeaderListSize:
 			st.headerSize = value
+		}
+
+		if key >= HeaderTableSize && key <= MaxHeaderListSize {
+			st.seen |= 1 << (key - 1)
 		}
 
 		last = i
